@@ -139,13 +139,21 @@ class Plane(GeoBody):
 
     def __hash__(self):
         """return the hash of a Plane"""
+        # Planes with opposite normals are equal, so the hash uses the
+        # normal with a canonical sign
+        n = self.n
+        for component in n:
+            if abs(component) > get_eps():
+                if component < 0:
+                    n = -n
+                break
         return hash(
             (
                 "Plane",
-                round(self.n[0], SIG_FIGURES),
-                round(self.n[1], SIG_FIGURES),
-                round(self.n[2], SIG_FIGURES),
-                round(self.n * self.p.pv(), SIG_FIGURES),
+                round(n[0], SIG_FIGURES),
+                round(n[1], SIG_FIGURES),
+                round(n[2], SIG_FIGURES),
+                round(n * self.p.pv(), SIG_FIGURES),
             )
         )
 
